@@ -1,8 +1,13 @@
 """
-Recorder stub for argparse (interpreted by pysymex in place of the real module): keeps the
-add_argument order - cvss_calculator.main() derives the CVSS version from the order of the
-namespace attributes - and returns a namespace whose values come from the harness
-(_flag_value is installed by the harness).
+Recorder stub for argparse (interpreted by pysymex in place of the real module).  It keeps what
+cvss_calculator.main() can observe of a parse: the namespace attributes in registration order
+(main() derives the CVSS version from the order of the namespace attributes), defaults, and the
+actions store_true / store_false / store_const / store with dest, const and default.  Which
+options are on the command line comes from the harness (_flag_present / _flag_argument are
+installed by the harness; both may be symbolic).  Options given several times or in an order
+other than the registration order are not modelled (for one destination shared by several
+options the stub applies them in registration order, as argparse does for a command line written
+in that order).
 """
 
 
@@ -10,11 +15,19 @@ class Namespace(object):
     pass
 
 
+class _Action(object):
+    def __init__(self, names, dest, action, const, default):
+        self.names = names
+        self.dest = dest
+        self.action = action
+        self.const = const
+        self.default = default
+
+
 class ArgumentParser(object):
     def __init__(self, description=None, **kwargs):
         self.description = description
-        self._dests = []
-        self._actions = {}
+        self._acts = []
 
     def add_argument(self, *names, **kwargs):
         dest = kwargs.get("dest")
@@ -25,12 +38,36 @@ class ArgumentParser(object):
                     break
         if dest is None:
             dest = names[0].lstrip("-").replace("-", "_")
-        self._dests.append(dest)
-        self._actions[dest] = kwargs.get("action")
+        action = kwargs.get("action")
+        if action not in (None, "store", "store_true", "store_false", "store_const"):
+            raise NotImplementedError("argparse action " + str(action))
+        if "default" in kwargs:
+            default = kwargs["default"]
+        elif action == "store_true":
+            default = False
+        elif action == "store_false":
+            default = True
+        else:
+            default = None
+        self._acts.append(_Action(names, dest, action, kwargs.get("const"), default))
         return None
 
     def parse_args(self, args=None):
         ns = Namespace()
-        for dest in self._dests:
-            setattr(ns, dest, _flag_value(dest, self._actions[dest]))  # noqa: F821
+        for act in self._acts:
+            if not hasattr(ns, act.dest):
+                setattr(ns, act.dest, act.default)
+        for act in self._acts:
+            if act.action == "store_true":
+                if _flag_present(act.names[0]):  # noqa: F821
+                    setattr(ns, act.dest, True)
+            elif act.action == "store_false":
+                if _flag_present(act.names[0]):  # noqa: F821
+                    setattr(ns, act.dest, False)
+            elif act.action == "store_const":
+                if _flag_present(act.names[0]):  # noqa: F821
+                    setattr(ns, act.dest, act.const)
+            else:
+                if _flag_present(act.names[0]):  # noqa: F821
+                    setattr(ns, act.dest, _flag_argument(act.names[0]))  # noqa: F821
         return ns
